@@ -127,13 +127,28 @@ theorem C15_cfg_values_first :
 
 /-! ## what a configuration store keeps of the values it is given -/
 
-/-- full statement "committed and applied values are kept apart": a configuration created with committed
-    values and no applied values is read back without applied values.  False of the twin and of the
-    code (one atomix map `configurations-<id>` serves both sides): -/
-theorem C15_values_sides_separate_full_fails :
-    ∃ (o : Obj), o.avals = none ∧ (create (Store.init .cfg2) o).err = none ∧
-      (readBack (create (Store.init .cfg2) o).store o).map (·.avals) ≠ some none := by
-  refine ⟨{ id := ['t'], target := ['t'], vals := some [(['/', 'a'], 1)] }, rfl, by decide, by decide⟩
+/-- Committed and applied values are kept apart (since commit 7dda02f; regenerated: `getCommitted` and
+    `getApplied` name different atomix maps in both configuration stores). -/
+theorem C15_side_maps_separate : sideMapsShared .cfg2 = false ∧ sideMapsShared .cfg3 = false := by decide
+
+/-- … so a configuration created with committed values and no applied values is read back without applied
+    values, and applied values written by `UpdateStatus` do not show up as committed ones. -/
+theorem C15_values_sides_separate_witness :
+    (readBack (create (Store.init .cfg2) { id := ['t'], target := ['t'], vals := some [(['/', 'a'], 1)] }).store { id := ['t'] }).map
+        (fun o => (o.vals, o.avals)) = some (some [(['/', 'a'], 1)], none) ∧
+    (readBack (write wS1 .updateStatus { wHeld with avals := some [(['/', 'b'], 2)] }).store wCfg).map
+        (fun o => (o.vals, o.avals)) = some (none, some [(['/', 'b'], 2)]) := ⟨by decide, by decide⟩
+
+/-- the regression kept as a variant: were the two names the same again (`sideMapsShared`), the committed value
+    would be read back as an applied value too — what the harness's monitor looks for on the real store. -/
+theorem C15_shared_side_map_would_leak (s : Store) (o : Obj) (h : sideMapsShared s.kind = true) :
+    appliedSideOf s.kind o = sideOf s.kind o := by
+  unfold appliedSideOf; rw [if_pos h]
+
+/-- what remains of it: the applied map of configuration `X` and the committed map of a configuration whose id is
+    `X-applied` are one atomix map (ids are `<target>-<type>-<version>`; a version text ending in `-applied`). -/
+theorem C15_side_map_names_can_collide :
+    appliedSideOf .cfg2 { id := "t-y-1".toList } = sideOf .cfg2 { id := "t-y-1-applied".toList } := by decide
 
 /-- full statement "every value of a write is stored under its own path": false of the v3 configuration
     store, whose `store()` hands `&pv` of the range variable to the atomix transaction — after a
